@@ -108,6 +108,14 @@ fn enumerate_build(ctx: &Ctx) -> Box<dyn Iterator<Item = BuildCase>> {
             }
         }
     }
+    // long texts at the marks where a length stops fitting 8, 12, 16 and 20 bits
+    // (the replay file of such a case is large; the failure message names it)
+    for n in [255usize, 256, 4095, 4096, 65535, 65536, (1 << 20) - 1, 1 << 20, (1 << 20) + 1] {
+        let body: String = (0..n).map(|i| if i % 7 == 3 { '\u{e9}' } else { (b'a' + (i % 26) as u8) as char }).collect();
+        for kind in KINDS {
+            v.push(BuildCase { kind, text: body.clone() });
+        }
+    }
     Box::new(v.into_iter())
 }
 
@@ -263,7 +271,21 @@ fn enumerate_parse(ctx: &Ctx) -> Box<dyn Iterator<Item = ParseCase>> {
             next0: if (i / 6) % 2 == 0 { 0x00 } else { 0x41 },
         })
     });
-    Box::new(it)
+    let big = [255usize, 256, 4095, 4096, 65535, 65536, (1 << 20) - 1, 1 << 20, (1 << 20) + 3].into_iter().enumerate().flat_map(|(i, n)| {
+        // valid text + NUL, text without a NUL, and text whose last character is cut by the size
+        let text: Vec<u8> = (0..n).map(|j| b'a' + (j % 26) as u8).collect();
+        let mut with_nul = text.clone();
+        with_nul.push(0);
+        let mut cut_char = text.clone();
+        cut_char.extend_from_slice(&[0xE2, 0x82]);
+        let kind = KINDS[i % 3];
+        [
+            ParseCase { kind, cut: with_nul.len(), content: Hex(with_nul), pad: 0x5A, next0: 0x41 },
+            ParseCase { kind, cut: text.len(), content: Hex(text), pad: 0, next0: 0 },
+            ParseCase { kind, cut: cut_char.len(), content: Hex(cut_char), pad: 0, next0: 0x41 },
+        ]
+    });
+    Box::new(it.chain(big))
 }
 
 fn strategy_parse(_: &Ctx) -> BoxedStrategy<ParseCase> {
@@ -298,7 +320,7 @@ pub fn subs() -> Vec<Box<dyn Sub>> {
     vec![
         Box::new(PropSub::<BuildCase> {
             name: "build",
-            rule: "CommandLineTag / BootLoaderNameTag / ModuleTag constructors. Enumerated: every string over {a, e-acute, euro sign, U+10348} up to 5 (thorough 6) characters, with and without one trailing NUL, x 3 kinds; generated: NUL-free strings up to 300 characters, with trailing NUL(s) / interior NUL. Oracle: stored bytes == text (+ NUL unless it already ends in NUL), size == fixed part + stored length, read-back == prefix before the first NUL. Non-trivial = multi-byte character, trailing NUL, or length 7 mod 8; distinct by (kind, text)",
+            rule: "CommandLineTag / BootLoaderNameTag / ModuleTag constructors. Enumerated: every string over {a, e-acute, euro sign, U+10348} up to 5 (thorough 6) characters, with and without one trailing NUL, x 3 kinds; long texts of 255 ... 2^20+1 bytes at the 8/12/16/20-bit marks; generated: NUL-free strings up to 300 characters, with trailing NUL(s) / interior NUL. Oracle: stored bytes == text (+ NUL unless it already ends in NUL), size == fixed part + stored length, read-back == prefix before the first NUL. Non-trivial = multi-byte character, trailing NUL, or length 7 mod 8; distinct by (kind, text)",
             profiles: Profiles::Both,
             quick: 30000,
             thorough: 3000000,
@@ -309,7 +331,7 @@ pub fn subs() -> Vec<Box<dyn Sub>> {
         }),
         Box::new(PropSub::<ParseCase> {
             name: "parse",
-            rule: "string tags laid out by hand: [fixed part][content][padding 0x5A|0x00][next tag starting 0x00|0x41], declared size = fixed part + cut. Enumerated: every byte string over {a, NUL, C3, A9, E2, FF} up to length 5 (thorough 6) x every cut 0..=len (kinds, padding and next-tag byte rotating); generated: contents up to 300 bytes (random over that alphabet, or long valid text of 1..4-byte characters + NUL + tail), cuts at/near the end or random. Every tag is read twice: as a single tag, and inside a boot information through the typed getter of the loaded structure and the tag walk. Oracle: text = bytes before the first NUL inside the declared size if valid UTF-8 (exact offset and length), MissingNul / Utf8 otherwise, never a panic. Non-trivial = terminator only outside the declared size, invalid UTF-8, or interior NUL; distinct by hash(image, kind)",
+            rule: "string tags laid out by hand: [fixed part][content][padding 0x5A|0x00][next tag starting 0x00|0x41], declared size = fixed part + cut. Enumerated: every byte string over {a, NUL, C3, A9, E2, FF} up to length 5 (thorough 6) x every cut 0..=len (kinds, padding and next-tag byte rotating), and contents of 255 ... 2^20+3 bytes (terminated, unterminated, last character cut); generated: contents up to 300 bytes (random over that alphabet, or long valid text of 1..4-byte characters + NUL + tail), cuts at/near the end or random. Every tag is read twice: as a single tag, and inside a boot information through the typed getter of the loaded structure and the tag walk. Oracle: text = bytes before the first NUL inside the declared size if valid UTF-8 (exact offset and length), MissingNul / Utf8 otherwise, never a panic. Non-trivial = terminator only outside the declared size, invalid UTF-8, or interior NUL; distinct by hash(image, kind)",
             profiles: Profiles::Both,
             quick: 40000,
             thorough: 3000000,
